@@ -460,16 +460,32 @@ def diff_fields(sch, got, want):
     return bad, "rows"
 
 
-def blame(sch, bad):
+def leaf_kind(field, got, want):
+    """the kind of the innermost column that differs (descends into nested tables)"""
+    if field.sub is None:
+        return field.kind
+    for j, f in enumerate(field.sub.fields):
+        g, w = [r[j] for r in got], [r[j] for r in want]
+        if tr(g) != tr(w):
+            return leaf_kind(f, g, w)
+    return field.kind
+
+
+def blame(sch, bad, got=None, want=None):
     """kind named in the signature: the value column of a [k, v] schema if it differs, else the first differing one"""
     if not bad:
         return "none"
+    pick = None
     for f in bad:
         if f.name == "v":
-            return f.kind
-    if len(bad) == len(sch.fields) and len(sch.fields) > 1:
+            pick = f
+    if pick is None and len(bad) == len(sch.fields) and len(sch.fields) > 1:
         return "all-columns"
-    return bad[0].kind
+    pick = pick or bad[0]
+    if pick.sub is not None and got is not None and len(got) == len(want):
+        j = sch.fields.index(pick)
+        return leaf_kind(pick, [r[j] for r in got], [r[j] for r in want])
+    return pick.kind
 
 
 class Ctx:
@@ -495,9 +511,11 @@ def compare(ctx, opname, qual, sch, got, want, case, what="wrong-rows"):
     bad, how = diff_fields(sch, got, want)
     if not bad:
         return True
+    who = blame(sch, bad, got, want)
     if how == "rows" and what == "wrong-rows" and loose_eq(got, want):
         what = "numeric-type-changed"          # same numbers, int <-> float <-> bool
-    sig = "%s:%s:%s%s" % (opname, blame(sch, bad), what if how == "rows" else "wrong-row-count", qual)
+        who = "ragged-numeric" if who in RAGGED_NUM else who
+    sig = "%s:%s:%s%s" % (opname, who, what if how == "rows" else "wrong-row-count", qual)
     ctx.col.fail(sig, case, "columns %s: got %r expected %r" % ([f.name for f in bad], got[:4], want[:4]))
     return False
 
@@ -712,7 +730,7 @@ def make_step(node, op):
         want = [list(r) + [v] for r, v in zip(rows, newvals)]
 
         def step(t, info):
-            arg = to_input(f, newvals, "list" if f.sub is None else "auto")
+            arg = to_input(f, newvals, "auto")
             info["lists"] = [(arg, copy.deepcopy(arg))] if isinstance(arg, list) else []
             return t.add_fields({op[1]: arg}, {op[1]: type_of(f)}) if op[3] else t.add_fields({op[1]: arg})
     elif name == "rt_tuples":
@@ -1168,15 +1186,26 @@ def run(tier="quick", seed=0):
                     "every sequence of table operations up to the stated depth, each followed by all observation channels; "
                     "a node is expanded once per (schema, operation kinds+parameter classes on the path, resulting rows); "
                     "distinct = distinct (schema, base size, program, channel); non-trivial = every case")
-    col.bounds = {"rows": "0..3 (operands of concatenate 0..2; tables grow to <= 6 rows before concatenate is cut)",
-                  "kind schemas": "depth %d with every parameter (masks 2^n, all slices incl. negative/strided, index arrays "
-                                  "of length <= 2 + reversal + repeats, concatenate self/left/right/both/empty, sort_by, replace, "
-                                  "add_fields typed/inferred, 3 round trips)%s" %
-                                  (2, "" if quick else "; depth 3 with representatives at the third level"),
-                  "wide / nested": "depth 2, full parameters at level 1" if quick else "depth 2 full",
-                  "datatypes": "depth 1 full parameters, n in {0,1,3}" if quick else "depth 2 (level 2 representatives), n=0..3",
-                  "sampled": "%d random programs of length 3 per kind schema (seeded)" % (20 if quick else 150),
-                  "construct": "every kind x n=0..3 x forms list/native/keywords/empty(); 12 ill-typed inputs; unequal lengths +-1"}
+    col.bounds = {
+        "rows": "base tables 0..3 rows, operands of concatenate 0..2 rows; concatenate is cut above 6 rows",
+        "parameter levels": "full = every mask (2^n), every slice result incl. negative / strided / out-of-range bounds, "
+                            "every index array of length <= 2 + reversal + repeats + negatives (array and list), concatenate "
+                            "self / left / right / both sides / empty operand / empty slice, sort_by every sortable column, "
+                            "replace every column (list, container, alternative container, two at once), add_fields typed / "
+                            "inferred, 4 round trips; rep = one parameter per class (~28 operations); mini = one per operation (~10)",
+        "primary kind schemas [k:int, v:kind] (int float bool Optional[int] str SequenceID List[int] strand DNA nested)":
+            "n=3: full x mini, n=0..2: full (depth 1)" if quick else "n=0..3: full x full; n=3: rep x mini x rep (depth 3)",
+        "secondary kind schemas (Union[..,str] List[float] List[bool] quality cigar-op cigar-length BAM-sequence List[str])":
+            "n in {0,1,3}: rep (depth 1)" if quick else "n=0..3: full x rep",
+        "wide (10 kinds) / nested-in-nested / single-column": "n=3: rep x mini (singles: rep), n=0,1: rep" if quick else "n=0..3: full x rep",
+        "bionumpy.datatypes (27 classes; 3 genotype-row classes not modelled)":
+            "n=3: rep, n=0: mini (depth 1)" if quick else "n=3: full x mini, n=0..2: rep",
+        "sampled": "%d random programs of 3 operations (full parameters) per kind / wide / nested schema, n=3, seeded" % (10 if quick else 100),
+        "construct": "every schema x n=0..3 x input forms python lists / keyword arguments / library containers / alternative "
+                     "containers (tuple, numpy U/S arrays, base-encoded text, list of arrays) / cls.empty(); 12 ill-typed inputs x n in {1,3}; "
+                     "one column shorter / longer by 1 in constructor, replace, add_fields",
+        "observation": "after every operation: column containers (class invariant len(column)=len(table)), operands re-read; per node "
+                       "t[i] for every i in [-n,n), iteration, tolist/toiter, todict, topandas - each on a table nobody has read before"}
     # 1 datatypes table
     for name in ["*"] + list(DATATYPES):
         c = {"section": "datatypes", "datatype": name}
@@ -1237,10 +1266,12 @@ def run(tier="quick", seed=0):
         if quick:
             section(sch.name, lambda: (run_programs(col, sch, [3], ("rep",)), run_programs(col, sch, [0], ("mini",))))
         else:
-            section(sch.name, lambda: run_programs(col, sch, [0, 1, 2, 3], ("full", "mini")))
+            section(sch.name, lambda: (run_programs(col, sch, [3], ("full", "mini")),
+                                       run_programs(col, sch, [0, 1, 2], ("rep",))))
     if not quick:
         for sch in kind_schemas():
-            section(sch.name + " d3", lambda: run_programs(col, sch, [3, 1], ("rep", "mini", "rep")))
+            if sch.name in primary:
+                section(sch.name + " d3", lambda: run_programs(col, sch, [3], ("rep", "mini", "rep")))
     for sch in kind_schemas() + other_schemas():
         section(sch.name + " sampled", lambda: sample_programs(col, sch, 3, 3, 10 if quick else 100))
     return col.result()
